@@ -410,16 +410,20 @@ class Session(AbstractSession):
                 result = ops.get_spans_for_field(field)
         elif len(fields) > 0:
             if isinstance(fields[0], Field):
-                result = fields[0].get_spans()
+                # the merged spans as an array of the first field's span dtype (the merge kernel returns a
+                # list whose element type depends on whether it runs compiled)
+                result = np.asarray(fields[0].get_spans())
                 for f in fields[1:]:
-                    result = ops._get_spans_for_2_fields_by_spans(result, f.get_spans())
+                    result = np.asarray(ops._get_spans_for_2_fields_by_spans(result, np.asarray(f.get_spans())),
+                                        dtype=result.dtype)
             elif isinstance(fields[0], np.ndarray):
                 if len(fields) == 2:
                     result = ops._get_spans_for_2_fields(fields[0], fields[1])
                 else:
                     result = ops.get_spans_for_field(fields[0])
                     for a in fields[1:]:
-                        result = ops._get_spans_for_2_fields_by_spans(result, ops.get_spans_for_field(a))
+                        result = np.asarray(ops._get_spans_for_2_fields_by_spans(result, ops.get_spans_for_field(a)),
+                                            dtype=result.dtype)
         else:
             raise ValueError("One of 'field' and 'fields' must be set")
 
